@@ -94,7 +94,7 @@ func Solve(g *Gen, obls []*Obligation, workDir string, timeoutMs int, par int) [
 }
 
 func solveOne(g *Gen, o *Obligation, workDir string, timeoutMs int) *Verdict {
-	h := sha1.Sum([]byte(o.Name))
+	h := sha1.Sum([]byte(fmt.Sprintf("%s|%d|%s", o.Name, o.Prefix, o.Goal)))
 	base := filepath.Join(workDir, fmt.Sprintf("%s_%x", clean(lastN(o.Name, 60)), h[:4]))
 	v := &Verdict{Obl: o}
 	// race the solvers: first definite answer wins
